@@ -344,3 +344,15 @@ Proof.
   rewrite cast_read_is_wrap by exact Hs. rewrite wrap_in_range by (try assumption; lia).
   apply enum_string_correct.
 Qed.
+
+(* ... and for EVERY integer x (out of range included): the string is decided by the wrapped value *)
+Lemma string_of_cast_all : forall size signed names vals x, (1 <= size <= 8)%nat ->
+  enum_cast_string size signed names vals x =
+  match first_name names vals (wrap (Z.of_nat size) signed x) with
+  | Some nm => nm
+  | None => decimal (wrap (Z.of_nat size) signed x)
+  end.
+Proof.
+  intros size signed names vals x Hs. unfold enum_cast_string.
+  rewrite cast_read_is_wrap by exact Hs. apply enum_string_correct.
+Qed.
